@@ -735,10 +735,15 @@ fn case_degenerate_config(out: &mut CaseOut, rng: &mut Rng, idx: u64) {
 /// the snapshot-heavy histories and the split hunter of C03 (outputs cut between two versions of
 /// one user key, partial manual compactions), the compaction shapes of C07 (slowed merges, backlog
 /// up to the level-0 triggers, seek storms) and the snapshot-per-write shapes of C04. What those
+/// Every sixth borrowed case is a sweep of C15: byte-damaged write-ahead logs, manifests and tables
+/// are opened, read, compacted, written to and reopened. What those
 /// checks say about contents is not this property's business and is dropped; a panic on a raindb
 /// thread or a call that does not return (the watchdog ends the shard) is.
 fn case_borrowed(out: &mut CaseOut, tier: &str, seed: u64, j: u64) {
     let (name, inner) = match j % 4 {
+        // damaged files are no excuse either: "as long as the filesystem makes progress" - it does,
+        // it just returns other bytes. Opening, reading and compacting the damaged images of C15.
+        _ if j % 6 == 5 => ("C15", super::c15::run_case(tier, seed, (j * 11) % super::c15::plan(tier))),
         0 | 1 => ("C03", super::c03::run_case(tier, seed, (j * 13) % super::c03::plan(tier))),
         2 => ("C07", super::c07::run_case(tier, seed, (j * 7) % super::c07::plan(tier))),
         _ => ("C04", super::c04::run_case(tier, seed, (j * 5) % super::c04::plan(tier))),
